@@ -159,3 +159,77 @@ pub fn expect_bool(rule: &Value, data: &Value, want: bool, obs: &mut Obs, why: &
 pub fn is_num_string_canonical(s: &str, n: &Value) -> bool {
     n.to_string() == s
 }
+
+/// What a text interface delivers for this value: serde_json's default float parser is not bit-exact on the
+/// shortest decimal text of a double, so print/parse is iterated to a fixpoint (None if there is none within
+/// a few rounds or the text exceeds the depth limit).  Checks that drive the CLI evaluate the in-process
+/// library on exactly this value.
+pub fn via_text(v: &Value) -> Option<Value> {
+    let mut cur = v.clone();
+    let mut text = cur.to_string();
+    for _ in 0..6 {
+        let next: Value = serde_json::from_str(&text).ok()?;
+        let next_text = next.to_string();
+        if next_text == text {
+            return Some(next);
+        }
+        cur = next;
+        text = next_text;
+    }
+    let _ = cur;
+    None
+}
+
+/// Same JSON document: strings, booleans, null and structure exactly; numbers of the same spelling class
+/// (integer / float) with equal values, floats up to the last bits (serde_json's default parser is not bit-exact
+/// on its own shortest output).
+pub fn same_document(a: &Value, b: &Value) -> bool {
+    match (a, b) {
+        (Value::Number(x), Value::Number(y)) => {
+            if x == y {
+                return true;
+            }
+            if x.is_f64() != y.is_f64() {
+                return false;
+            }
+            match (x.as_f64(), y.as_f64()) {
+                (Some(p), Some(q)) if x.is_f64() => p == q || (p - q).abs() <= 4.0 * f64::EPSILON * p.abs().max(q.abs()),
+                _ => false,
+            }
+        }
+        (Value::Array(x), Value::Array(y)) => x.len() == y.len() && x.iter().zip(y.iter()).all(|(p, q)| same_document(p, q)),
+        (Value::Object(x), Value::Object(y)) => x.len() == y.len() && x.iter().all(|(k, p)| y.get(k).map(|q| same_document(p, q)).unwrap_or(false)),
+        _ => a == b,
+    }
+}
+
+/// stdout of the command = the library's log lines (verbatim), then - iff a value is expected - exactly one
+/// more line that is a JSON serialisation of that value.
+pub fn cli_stdout_matches(stdout: &str, log_lines: &[String], value: Option<&Value>) -> Result<(), String> {
+    if !stdout.is_empty() && !stdout.ends_with('\n') {
+        return Err(format!("stdout does not end with a newline: {:?}", stdout));
+    }
+    let lines: Vec<&str> = stdout.split_terminator('\n').collect();
+    let n = log_lines.len();
+    if lines.len() < n || lines[..n].iter().zip(log_lines.iter()).any(|(a, b)| *a != b.as_str()) {
+        return Err(format!("stdout {:?} does not start with the log lines {:?}", stdout, log_lines));
+    }
+    match value {
+        None => {
+            if lines.len() != n {
+                return Err(format!("stdout holds {} line(s) after the log lines although no result line may be printed: {:?}", lines.len() - n, &lines[n..]));
+            }
+        }
+        Some(v) => {
+            if lines.len() != n + 1 {
+                return Err(format!("stdout must hold exactly one result line after the {} log line(s), found {}: {:?}", n, lines.len() - n, &lines[n..]));
+            }
+            match serde_json::from_str::<Value>(lines[n]) {
+                Ok(p) if same_document(&p, v) => {}
+                Ok(p) => return Err(format!("the result line {:?} denotes {} but the library's result is {}", lines[n], p, v)),
+                Err(e) => return Err(format!("the result line {:?} is not valid JSON ({}); the library's result is {}", lines[n], e, v)),
+            }
+        }
+    }
+    Ok(())
+}
